@@ -564,7 +564,12 @@ def discrete_SIR(G, test_transmission=_simple_test_transmission_, args=(), test_
             initial_number = 1
         else:
             initial_number = int(round(G.order()*rho))
-        initial_infecteds=random.sample(list(G), initial_number)
+        if initial_recovereds is None:
+            candidates = list(G)
+        else: #the randomly chosen nodes must not be among the initially recovered ones
+            already_recovered = set(initial_recovereds)
+            candidates = [node for node in G if node not in already_recovered]
+        initial_infecteds=random.sample(candidates, initial_number)
     elif G.has_node(initial_infecteds):
         initial_infecteds=[initial_infecteds]
     #else it is assumed to be a list of nodes.
@@ -2333,7 +2338,12 @@ def fast_nonMarkov_SIR(G, trans_time_fxn=None,
             initial_number = 1
         else:
             initial_number = int(round(G.order()*rho))
-        initial_infecteds=random.sample(list(G), initial_number)
+        if initial_recovereds is None:
+            candidates = list(G)
+        else: #the randomly chosen nodes must not be among the initially recovered ones
+            already_recovered = set(initial_recovereds)
+            candidates = [node for node in G if node not in already_recovered]
+        initial_infecteds=random.sample(candidates, initial_number)
     elif G.has_node(initial_infecteds):
         initial_infecteds=[initial_infecteds]
     #else it is assumed to be a list of nodes.
@@ -3163,7 +3173,12 @@ def Gillespie_SIR(G, tau, gamma, initial_infecteds=None,
             initial_number = 1
         else:
             initial_number = int(round(G.order()*rho))
-        initial_infecteds=random.sample(list(G), initial_number)
+        if initial_recovereds is None:
+            candidates = list(G)
+        else: #the randomly chosen nodes must not be among the initially recovered ones
+            already_recovered = set(initial_recovereds)
+            candidates = [node for node in G if node not in already_recovered]
+        initial_infecteds=random.sample(candidates, initial_number)
     elif G.has_node(initial_infecteds):
         initial_infecteds=[initial_infecteds]
         
